@@ -45,7 +45,7 @@ def describe(tier):
         "rule": "for every data array per dimension (rows N, E categories; one-axis dimensions and dimensions with one extra axis (N,2), (N,3)) and every call of C03's sub-space (aggregate x policy x weights x fact): the base cube uses "
         "harness-built dimensions with common 0 and explicit shape E+2; then for EVERY combination (v_1..v_D) in (0..E+1)^D each dimension is replaced by a rebuilt "
         "copy re-encoded with the library's shift_common(v_d) (v = E, E+1 never occur in the data) and the result must equal the base (missing cells exactly, "
-        "values within 1e-9 x grand total); then every dimension is re-normalised with shift_common() and compared again; and ONE set of index objects is evaluated, re-expressed in place through the whole list of common-value combinations and evaluated after each step (anything an index memoises must follow its common value). shift_common must leave the dense "
+        "values within 1e-9 x grand total); then every dimension is re-normalised with shift_common() and compared again; the unweighted count is also taken with the cube shape INFERRED from the re-expressed dimensions (must evaluate, cover the categories present, agree on the shared cells); and ONE set of index objects is evaluated, re-expressed in place through the whole list of common-value combinations and evaluated after each step (anything an index memoises must follow its common value). shift_common must leave the dense "
         "content unchanged. evaluations = re-encoded cube evaluations. Non-trivial: some dimension has >=2 distinct values and the combination differs from "
         "the base encoding. Distinct = distinct (data, call, combination).",
         "bounds": {"sets": SETS[tier]},
@@ -161,6 +161,32 @@ def check_data(datas, E, N, cfg, acc, only_call=None, only_combo=None):
                 if msg:
                     acc.violation("ccube:%s:%s:differs" % (agg, tag), case, msg)
                 acc.count("reencoded_evals")
+        # inferred cube shape (no interacting_shape given): an absent common value may lie beyond the data; the cube must still evaluate,
+        # cover every category present and agree with the base on the cells they share (everything beyond the base's extent is empty)
+        if agg == "count" and ws == ("none",):
+            for combo, (dims, renorm) in enc.items():
+                case = dict(case0, combo=list(combo), stage="inferred-shape", commons=[ix.common for ix in dims])
+                try:
+                    cube = ccube(dims)
+                    got = Q.normalise(Q.call_cube(cube, agg, None, None, ignore, Q.NaN), Q.NaN)
+                except Exception as e:  # noqa
+                    acc.violation("ccube:count:inferred-shape:raised", case, repr(e))
+                    continue
+                need = [max(int(dn.max()) if dn.size else 0, 0) + 1 for dn in denses]
+                gv, gm = got
+                if gv.ndim != base[0].ndim or any(gs < n for gs, n in zip(gv.shape[gv.ndim - D:], need)):
+                    acc.violation("ccube:count:inferred-shape:too-small", case, "inferred result shape %r does not cover the categories present (%r needed)" % (gv.shape, need))
+                    continue
+                sl = tuple([slice(None)] * (gv.ndim - D) + [slice(0, min(a, b)) for a, b in zip(gv.shape[gv.ndim - D:], base[0].shape[base[0].ndim - D:])])
+                msg = same((gv[sl], gm[sl]), (base[0][sl], base[1][sl]), grand)
+                if msg:
+                    acc.violation("ccube:count:inferred-shape:differs", case, msg)
+                    continue
+                outside = numpy.ones(gv.shape, dtype=bool)
+                outside[sl] = False
+                if outside.any() and not gm[outside].all():
+                    acc.violation("ccube:count:inferred-shape:differs", case, "cells beyond every category present are not all missing: %r" % (gv.tolist(),))
+                acc.count("inferred_shape_evals")
         # the same index OBJECTS evaluated, re-expressed in place, evaluated again ... (anything an index memoises must follow its common value)
         if True:
             live = [M.build_index(d, 0) for d in denses]
